@@ -129,6 +129,8 @@ class Tr:
             raise Refuse(f"cast kind {ck}")
         if k == "UnaryOperator":
             op = n["opcode"]
+            if op == "-" and inner[0].get("kind") == "IntegerLiteral":
+                return f"(-{int(inner[0]['value'])})"
             a = self.expr(inner[0])
             if op == "!":
                 return f"(negb {a})"
@@ -155,7 +157,7 @@ class Tr:
             return t
         if k in ("CXXTemporaryObjectExpr", "CXXConstructExpr"):
             t = strip_cv(qt(n))
-            key = t.split("::")[-1]
+            key = t.split("<")[0].split("::")[-1]
             if key in self.records:
                 spec = self.records[key]
                 args = [self.expr(x) for x in inner]
